@@ -67,7 +67,7 @@ class ListProperty(PropertyProtocol):
                 schemas,
             )
 
-        items = data.prefixItems or []
+        items = list(data.prefixItems or [])  # a copy: the schema object is parsed again on a retry or a second use
         if data.items:
             items.append(data.items)
 
